@@ -80,7 +80,7 @@ def check(ctx: Ctx) -> None:
     model = get_model(ctx.repo)
     ctx.modules_consulted.update({TIKZ, SCHEM, BASE, "pyimpspec.circuit.series", "pyimpspec.circuit.parallel", "pyimpspec.circuit.circuit", "pyimpspec.circuit"})
     ctx.rule("R20.1", "exhaustive traversal: every dispatch over a child's kind covers {Series, Parallel, Element}; the fall-through raises, never skips silently; each element leaf reaches exactly one emit call")
-    ctx.rule("R20.2", "to_latex is latex(to_sympy(substitute=False)); symbol tables are C02 R2.2")
+    ctx.rule("R20.2", "to_latex is latex(to_sympy(substitute=False)); parameter variables carry the element's own identifier (one variable per parameter); identifier maps are recomputed from the current structure on every export (no stale map → KeyError); symbol tables are C02 R2.2")
     ctx.rule("R20.3", "framing: \\begin{circuitikz} first and \\end{circuitikz} last; push/pop in draw_parallel issued in equal number; exporters are installed on Circuit and Connection")
 
     sites = [
@@ -180,6 +180,11 @@ def check(ctx: Ctx) -> None:
         ctx.ok()
     else:
         ctx.violation("R20.2", "Circuit.to_sympy:delegate", "pyimpspec.circuit.circuit", cs.node, "Circuit.to_sympy must delegate to its top-level series with the running identifiers")
+
+    # one variable per parameter / exports never read a stale identifier map (shared with C16)
+    from .c16 import identifier_source_rule, recompute_rule
+    identifier_source_rule(ctx, model, "R20.2")
+    recompute_rule(ctx, model, "R20.2")
 
     # ---------------- R20.3 ---------------------------------------------------------
     tz = model.fi(TIKZ, "to_circuitikz")
